@@ -1,16 +1,48 @@
 #!/bin/bash
-# Builds the whole Coq development from clean (full .vo build) and checks for forbidden vernacular.
+# Builds the whole Coq development from clean with coqc (full .vo, never -vos/-vok): Base first,
+# then every property directory (in parallel, each in coqdep order), and scans for forbidden
+# vernacular.  Fails only if Base does not build or forbidden vernacular is present; a property
+# directory that does not build is reported here and makes that property's own check fail.
 cd "$(dirname "$0")" || exit 2
 export PYTHONPATH=/repo:/verif PYTHONDONTWRITEBYTECODE=1
 mkdir -p .work .cache evidence replays
-if grep -rnE '\b(Admitted|admit|Axiom|Parameter|Conjecture|bypass_check)\b|Unset Guard|Admit Obligations' coq --include='*.v' | grep -v '^\s*(\*'; then
-  echo "forbidden vernacular found"; exit 1
-fi
 /venv/bin/python - <<'PY' 2>&1 | grep -v 'WARNING: '
-import sys
+import os, sys, concurrent.futures
 from harness import common as C
-ok, log = C.coq_build()
-print(log[-1500:])
-sys.exit(0 if ok else 1)
+bad = C.forbidden_scan()
+if bad:
+    print('forbidden vernacular:', bad); sys.exit(1)
+ok, log = C.coq_build(['Base'])
+print('Base:', 'ok' if ok else 'FAILED')
+if not ok:
+    print(log[-3000:]); sys.exit(1)
+# C07's Generated.v is produced from /repo's current source
+try:
+    from harness import skeleton as S
+    fns, errs = S.translate_all()
+    S.write_generated(fns)
+except Exception as e:
+    print('C07 translator:', repr(e))
+dirs = sorted(d for d in os.listdir(C.COQ) if os.path.isdir(os.path.join(C.COQ, d)) and d != 'Base')
+# properties that import other properties' files are built after those (C01 first)
+first = [d for d in dirs if d in ('C01', 'C04', 'C11', 'C14')]
+rest = [d for d in dirs if d not in first]
+def build(d):
+    import importlib
+    try:
+        mod = importlib.import_module('harness.%s' % d.lower())
+        deps = list(getattr(mod, 'COQ_DIRS', [d]))
+    except Exception:
+        deps = [d]
+    return d, C.coq_build(deps)
+failed = []
+for group in (first, rest):
+    with concurrent.futures.ThreadPoolExecutor(max_workers=8) as ex:
+        for d, (ok, log) in ex.map(build, group):
+            print('%s: %s' % (d, 'ok' if ok else 'FAILED'))
+            if not ok:
+                failed.append(d); print(log[-1500:])
+print('setup done; property directories that do not build:', failed)
+sys.exit(0)
 PY
 exit ${PIPESTATUS[0]}
